@@ -367,7 +367,8 @@ def check_core_resolve(rep, core):
         oks = [b2 for b2, i2, s2 in f.stmts('assign') if s2['rv']['k'] == 'agg' and s2['rv'].get('adt') == 'core::result::Result' and s2['rv'].get('variant') == 'Ok'
                and s2['d']['l'] == 0 and not s2['d']['p']]
         reach = f.reachable_ps([bb], call_values=lambda b_, t_: ('V', 'core::result::Result', 1) if b_ == bb else None)
-        prop_ok = same_err and not (set(oks) & reach) and bool(set(f.return_blocks()) & reach)
+        # (whether a return is reached at all with an Err is the business of the no-panic clause above: the debug_assert! of C02-F1 sits here)
+        prop_ok = same_err and not (set(oks) & reach)
     rep.expect('R02.f', prop_ok, 'Core::resolve|propagates', 'the ResolveError is returned through `?`',
                'Core::resolve no longer returns the ResolveError of a rejected resolution')
 
